@@ -37,8 +37,33 @@ class Tr:
 
     def adopt(self, addr, size, name):
         """Register an object allocated by the library itself (so that dumps include it)."""
+        if any(a == addr for a, _, _ in self.objs):
+            return
+        e = self.enc(addr)
         self.objs.append((addr, size, name))
-        self.acts.append(("adopt", len(self.objs) - 1, self.enc(addr), size))
+        self.acts.append(("adopt", len(self.objs) - 1, e, size))
+
+    def owned(self, v):
+        return any(a <= v < a + max(sz, 1) for a, sz, _ in self.objs)
+
+    def adopt_ret(self, r, step):
+        """A call returned a pointer into an object the library allocated: make it a replay object
+        located relative to that return value."""
+        o = self.ex.obj_at(r) if isinstance(r, int) and r >= 0x10000 else None
+        if o is None or o.kind != "heap" or self.owned(r):
+            return
+        self.objs.append((o.base, o.size, "lib"))
+        self.acts.append(("adopt_ret", len(self.objs) - 1, step, r - o.base, o.size))
+
+    def adopt_mem(self, where, name="lib"):
+        """The pointer stored at address `where` designates a library-allocated block: adopt it."""
+        v = self.ex.load(where, ir.int_t(64))
+        o = self.ex.obj_at(v) if isinstance(v, int) and v >= 0x10000 else None
+        if o is None or o.kind != "heap" or self.owned(v):
+            return
+        e = self.enc(where)
+        self.objs.append((o.base, o.size, name))
+        self.acts.append(("adopt_mem", len(self.objs) - 1, e, v - o.base, o.size))
 
     def enc(self, v):
         if isinstance(v, (Fraction,)):
@@ -57,6 +82,8 @@ class Tr:
         nm = self.ex.addr_func.get(v)
         if nm is not None:
             return ("fn", nm)
+        if v >= 0x10000 and self.ex.obj_at(v) is not None:
+            return ("op", v)        # pointer into an object the library allocated itself: opaque
         return ("i", v)
 
     def store(self, addr, val, size=8, isfloat=False):
@@ -88,6 +115,8 @@ class Tr:
         self.step += 1
         step = self.step
         r = ex.call(fname, *real)
+        if ret == "ptr":
+            self.adopt_ret(r, step)
         er = self.enc_ret(r, ret)
         self.acts[idx] = ("call", fname, encs, ret, er)
         if ex.concrete is not None:
@@ -150,7 +179,7 @@ CT = {"i32": "uint32_t", "i64": "uint64_t", "ptr": "void*", "f64": "double", "vo
 
 def c_expr(e, as_float=False):
     k = e[0]
-    if k == "i":
+    if k == "i" or k == "op":
         return "0x%xull" % (e[1] & ((1 << 64) - 1))
     if k == "p":
         return "((uint64_t)(uintptr_t)((char*)O[%d]+%d))" % (e[1], e[2])
@@ -163,29 +192,42 @@ def c_expr(e, as_float=False):
     raise ValueError(e)
 
 
-def gen_c(ex, acts, nobj, prelude, sigs):
+def gen_c(ex, acts, nobj, prelude, sigs, dumps=None):
     """sigs: fname -> (ret ctype, [param ctypes]) derived from the IR."""
     L = ["#include <stdint.h>", "#include <stdio.h>", "#include <stdlib.h>", "#include <string.h>", "#include <math.h>",
-         "typedef struct { double re, im; } vcpx;", "static void *O[%d]; static size_t OS[%d];" % (max(nobj, 1), max(nobj, 1)), prelude]
+         "typedef struct { double re, im; } vcpx;", "static void *O[%d]; static size_t OS[%d]; static uint64_t R[%d];" % (
+             max(nobj, 1), max(nobj, 1), sum(1 for a in acts if a[0] == "call") + 2), prelude]
     decl = set()
     for a in acts:
         if a[0] == "call" and a[1] not in decl:
             decl.add(a[1])
             rt, ps = sigs[a[1]]
             L.append("extern %s %s(%s);" % (rt, a[1], ", ".join(ps) if ps else "void"))
-    L.append("""static void dump(int step){ for(int k=0;k<%d;k++){ if(!O[k]) continue; printf("D %%d %%d ",step,k);
+    L.append("""static void dump(int step, unsigned long long alive){ for(int k=0;k<%d;k++){ if(!O[k] || !((alive>>k)&1)) continue; printf("D %%d %%d ",step,k);
   for(size_t j=0;j<OS[k];j++) printf("%%02x",((unsigned char*)O[k])[j]); printf("\\n"); }
   printf("A %%d",step); for(int k=0;k<%d;k++) printf(" %%llx",(unsigned long long)(uintptr_t)O[k]); printf("\\n"); }""" % (nobj, nobj))
     L.append("int main(void){ setvbuf(stdout,0,_IONBF,0);")
     step = 0
+    pending = [None]
+
+    def flush():
+        if pending[0] is not None:
+            L.append(pending[0])
+            pending[0] = None
     for a in acts:
         k = a[0]
+        if not k.startswith("adopt"):
+            flush()
         if k == "alloc":
             L.append("  O[%d]=%s; OS[%d]=%d;" % (a[1], ("calloc(1,%d)" if a[3] else "malloc(%d)") % max(a[2], 1), a[1], a[2]))
             if not a[3]:
                 L.append("  memset(O[%d],0xCD,%d);" % (a[1], max(a[2], 1)))
         elif k == "adopt":
             L.append("  O[%d]=(void*)(uintptr_t)%s; OS[%d]=%d;" % (a[1], c_expr(a[2]), a[1], a[3]))
+        elif k == "adopt_ret":
+            L.append("  O[%d]=R[%d] ? (char*)(uintptr_t)R[%d]-%d : 0; OS[%d]=%d;" % (a[1], a[2], a[2], a[3], a[1], a[4]))
+        elif k == "adopt_mem":
+            L.append("  { uint64_t v_=*(uint64_t*)(uintptr_t)%s; O[%d]=v_ ? (char*)(uintptr_t)v_-%d : 0; OS[%d]=%d; }" % (c_expr(a[2]), a[1], a[3], a[1], a[4]))
         elif k == "store":
             if a[4]:
                 L.append("  *(double*)(uintptr_t)%s = %s;" % (c_expr(a[1]), c_expr(a[3]) if a[3][0] in ("f", "nf") else "0"))
@@ -211,10 +253,17 @@ def gen_c(ex, acts, nobj, prelude, sigs):
             elif rt == "vcpx":
                 L.append("  { vcpx r=%s; printf(\"R %d c %%a %%a\\n\", r.re, r.im); }" % (call, step))
             else:
-                L.append("  { uint64_t r=(uint64_t)%s; printf(\"R %d i %%llx\\n\", (unsigned long long)r); }" % (call, step))
-            L.append("  dump(%d);" % step)
+                L.append("  { uint64_t r=(uint64_t)%s; R[%d]=r; printf(\"R %d i %%llx\\n\", (unsigned long long)r); }" % (call, step, step))
+            mask = (1 << 64) - 1
+            if dumps is not None and step in dumps:
+                mask = 0
+                for oi, d in enumerate(dumps[step]):
+                    if d[3] and oi < 64:
+                        mask |= 1 << oi
+            pending[0] = "  dump(%d, 0x%xull);" % (step, mask)
         elif k == "note":
             L.append("  /* %s */" % a[1].replace("*/", "* /"))
+    flush()
     L.append("  puts(\"END\"); return 0; }")
     return "\n".join(L)
 
@@ -264,6 +313,8 @@ def compare(ex, tr, native_out, conc_acts, dumps_by_step, rets_by_step, tol=1e-9
         if exp is None:
             continue
         k = exp[0]
+        if k == "op":
+            continue
         if k in ("i", "p", "fn"):
             if got[0] != "i":
                 diffs.append("step %d: return kind" % step)
@@ -358,7 +409,7 @@ def confirm(ex_factory, harness, finding, cfg, srcs, tag, tol=1e-9):
     if not same:
         return dict(confirmed=False, how="model does not reproduce in the concrete llsym run (%s; findings: %s)" % (
             outcome, [(f.kind, f.label) for f in ex2.findings]), text="", c_file=None)
-    csrc = gen_c(ex2, tr.acts, len(tr.objs), tr.c_prelude, ir_sigs(ex2))
+    csrc = gen_c(ex2, tr.acts, len(tr.objs), tr.c_prelude, ir_sigs(ex2), tr.dumps)
     cpath = os.path.join(scratch(), "replay_%s.c" % tag)
     with open(cpath, "w") as f:
         f.write(csrc)
@@ -398,7 +449,7 @@ def validate_path(ex_factory, harness, model, cfg, srcs, tag, tol=1e-9):
     tr = getattr(ex2, "tr", None)
     if tr is None or not tr.rets:
         return None
-    csrc = gen_c(ex2, tr.acts, len(tr.objs), tr.c_prelude, ir_sigs(ex2))
+    csrc = gen_c(ex2, tr.acts, len(tr.objs), tr.c_prelude, ir_sigs(ex2), tr.dumps)
     cpath = os.path.join(scratch(), "valid_%s.c" % tag)
     with open(cpath, "w") as f:
         f.write(csrc)
